@@ -95,6 +95,7 @@ func aShow(v aVal) string {
 }
 
 type aEnv struct {
+	stack   []*ssa.Function
 	choices []bool
 	pos     int
 	trace   []string          // "atom=bool" in query order
@@ -352,6 +353,22 @@ func (c *Ctx) aCall(fn *ssa.Function, args []aVal, env *aEnv, depth int, sums ma
 		env.undecided("no body for " + fnName(fn))
 		return aSym("nobody")
 	}
+	for _, onStack := range env.stack {
+		if onStack == fn {
+			// self-recursion: an opaque result for these arguments
+			var as []string
+			for _, a := range args {
+				as = append(as, aShow(a))
+			}
+			name := "rec:" + fn.Name() + "(" + strings.Join(as, ",") + ")"
+			if fn.Signature.Results().Len() == 1 && isBoolType(fn.Signature.Results().At(0).Type()) {
+				return aBool(env.atom(name))
+			}
+			return aSym(name)
+		}
+	}
+	env.stack = append(env.stack, fn)
+	defer func() { env.stack = env.stack[:len(env.stack)-1] }()
 	fr := &aFrame{c: c, fn: fn, vals: map[ssa.Value]aVal{}, env: env, depth: depth}
 	for i, p := range fn.Params {
 		if i < len(args) {
@@ -385,6 +402,15 @@ func (c *Ctx) aCall(fn *ssa.Function, args []aVal, env *aEnv, depth int, sums ma
 				switch p := fr.get(x.X).(type) {
 				case aPtr:
 					fr.vals[x] = aFieldPtr{p.cell, x.Field}
+				case aFieldPtr:
+					// address of a field of a nested struct value
+					if outer, ok := p.base.v.(aStruct); ok {
+						if inner, ok := outer.f[p.idx].(aStruct); ok {
+							fr.vals[x] = aFieldPtr{&aCell{v: inner}, x.Field}
+							break
+						}
+					}
+					fr.vals[x] = aSym(fmt.Sprintf("&%s.%s", aShow(p), fieldOfAddr(x).Var.Name()))
 				default:
 					fr.vals[x] = aSym(fmt.Sprintf("&%s.%s", aShow(p), fieldOfAddr(x).Var.Name()))
 				}
